@@ -25,6 +25,7 @@ fn main() {
     run.assume("the application reopens with the index configuration it was moving to; a crash inside the very first collection creation may be answered with the documented delete_collection + recreate");
     run.assume("collection extensions are not part of the durability statement: they are carried in the model only when acknowledged and are not asserted after a crash");
     let t = run.tier;
+    v_db::crash::set_deadline_in(run.time_left().mul_f64(1.05));
     run.parallel("workloads", t.pick(96, 3000), 0.97, |c, rng, st| case(c, rng, st, t));
     run.floor("crash_points_l1", 1000);
     run.floor("crash_points_l2", 10);
